@@ -70,3 +70,32 @@ Lemma thousandths_margin t :
   let r := (1000 * t) mod 48 in
   (r = 24 /\ t mod 6 = 3) \/ r = 0 \/ 16 <= Z.abs (2 * r - 48).
 Proof. cbv zeta. lia. Qed.
+
+(* an exact tie is resolved to the even neighbour, stated on the distance *)
+Lemma round_he_tie_even' n d : 0 < d -> 2 * Z.abs (n - round_he n d * d) = d -> Z.even (round_he n d) = true.
+Proof.
+  intros Hd Ht. unfold round_he in *.
+  destruct (2 * (n mod d) <? d) eqn:E1; [exfalso; lia|].
+  destruct (d <? 2 * (n mod d)) eqn:E2; [exfalso; lia|].
+  destruct (Z.even (n / d)) eqn:E3; [assumption|]. rewrite Z.even_add, E3. reflexivity.
+Qed.
+
+(* the result depends only on the rational n/d, not on how it is written *)
+Lemma round_he_compat n d n' d' : 0 < d -> 0 < d' -> n * d' = n' * d -> round_he n d = round_he n' d'.
+Proof.
+  intros Hd Hd' E.
+  pose proof (round_he_nearest n d Hd) as H1. pose proof (round_he_nearest n' d' Hd') as H2.
+  pose proof (round_he_tie_even' n d Hd) as T1. pose proof (round_he_tie_even' n' d' Hd') as T2.
+  set (q := round_he n d) in *. set (q' := round_he n' d') in *. clearbody q q'.
+  assert (A1 : 2 * Z.abs (n * d' - q * d * d') <= d * d') by nia.
+  assert (A2 : 2 * Z.abs (n * d' - q' * d * d') <= d * d') by (rewrite E; nia).
+  assert (Hdd : 0 < d * d') by nia.
+  assert (Hclose : Z.abs (q - q') <= 1) by nia.
+  destruct (Z.eq_dec q q') as [|Hne]; [assumption|]. exfalso.
+  assert (Hone : Z.abs (q - q') = 1) by lia.
+  (* both are exact ties, hence both even, yet they differ by one *)
+  assert (E1 : 2 * Z.abs (n - q * d) = d) by nia.
+  assert (E2 : 2 * Z.abs (n' - q' * d') = d') by nia.
+  specialize (T1 E1). specialize (T2 E2).
+  apply Z.even_spec in T1 as [a Ha]. apply Z.even_spec in T2 as [b Hb]. lia.
+Qed.
